@@ -45,7 +45,11 @@ LScenario(s, crlf) ==
       ref == [op |-> "execfrag", ctx |-> 0, reader |-> "string", text |-> t]
       pads == [k \in 1..46 |-> [op |-> "execfrag", ctx |-> k, reader |-> "string", text |-> t, padline |-> 984 + k, same_run_as |-> 1]]
       frag == [j \in 1..5 |-> [op |-> "execfrag", ctx |-> 46 + j, text |-> t, frags |-> <<<<1, 2, 7, 64, 1000>>[j]>>, same_run_as |-> 1]]
-  IN [prop |-> "C13", key |-> "L", steps |-> <<ref>> \o pads \o frag]
+      \* the bloc command reads a script file and its standard input through readers of its own
+      cli == IF crlf \/ s = 1
+             THEN [k \in 1..92 |-> [op |-> "cli", mode |-> (IF k <= 46 THEN "file" ELSE "stdin"), text |-> t, padline |-> 984 + ((k - 1) % 46) + 1, args |-> <<>>, same_out_as |-> 1]]
+             ELSE <<>>
+  IN [prop |-> "C13", key |-> "L", steps |-> <<ref>> \o pads \o frag \o cli]
 \* CR LF against LF: same tokens
 CScenario(s) ==
   [prop |-> "C13", key |-> "C",
